@@ -292,6 +292,10 @@ type Layout struct {
 	// YAMLEmptySections writes `requests: []` / `calls: []` /
 	// `variable_sources: []` for empty sections instead of leaving them out.
 	YAMLEmptySections bool `json:"yaml_empty_sections,omitempty"`
+	// YAMLStyles names string values of the YAML rendering (by YAMLSite.Path)
+	// that RenderYAMLStyled writes by hand: block scalars, multi-line plain and
+	// quoted scalars (see yamlstyle.go). RenderYAML ignores it.
+	YAMLStyles map[string]ScalarStyle `json:"yaml_styles,omitempty"`
 }
 
 // Model is one scenario description.
